@@ -422,6 +422,7 @@ class StructRun(object):
                 break
         out = []
         for (o, v, origin, sig) in picked:
+            n_before = len(out)
             base = {"kind": "struct", "class": key, "origin": origin, "seed_hex": sig.hex() if origin != "builder" else None,
                     "seed_version": IC.vname(v) if v else None}
             out.append((o, "strict", dict(base, derive=None)))
@@ -474,6 +475,12 @@ class StructRun(object):
                 if desc.startswith("set ") and self.leaf_at(y, desc) == "Enumeration":
                     mode = "inconsistent"   # an enumeration replacement may contradict fields that depend on it
                 out.append((y, mode, dict(base, derive=[rs, n_der, j], desc=desc)))
+            if origin.startswith("engine-built-request"):
+                # the request generator also builds deliberately inconsistent requests (object type vs object):
+                # values taken from its objects are not known to be complete
+                for q in range(n_before, len(out)):
+                    if out[q][1] == "strict":
+                        out[q] = (out[q][0], "incomplete", out[q][2])
         return out
 
     def leaf_at(self, y, desc):
